@@ -1266,3 +1266,75 @@ func ruleUnguardedElem(prog *Program, rep *Report, rels ...string) {
 	rep.Rules = append(rep.Rules, "K-nilelem: in the encoders a reflect.Value is replaced by its Elem() under a Kind() test only where an IsNil() test of the same value guards the way (enclosing condition, or an earlier statement of the block): a nil pointer inside a slice, map or field encodes as null and never reaches Interface() as the zero Value")
 	runSynRule(prog, rep, "K-nilelem", rels, matchUnguardedElem, fixtureUnguardedElem, 1, 4)
 }
+
+// ---------------------------------------------------------------- K-bytes
+
+// ruleBytesAs: the reflective slice writers of oj and sen must treat a byte
+// slice like the direct []byte case (BytesAs option); otherwise a []byte struct
+// field is an array of numbers in oj/sen and a string in pretty/alt.
+func ruleBytesAs(prog *Program, rep *Report) {
+	rep.Rules = append(rep.Rules, "K-bytes: every method of oj.Writer and sen.Writer that writes the elements of a reflect.Value slice (a loop over rv.Index(i)) first tests for the byte element kind (reflect.Uint8): a []byte reached by reflection follows the BytesAs option like a []byte inside a []any, as pretty and alt.Decompose do")
+	n := 0
+	for _, rel := range []string{"oj", "sen"} {
+		pk := prog.Pkg(rel)
+		if pk == nil {
+			rep.Errorf("K-bytes: package %s not loaded", rel)
+			continue
+		}
+		info := pk.TypesInfo
+		for _, f := range pk.Syntax {
+			for _, d := range f.Decls {
+				fd, ok := d.(*ast.FuncDecl)
+				if !ok || fd.Body == nil || fd.Recv == nil || strings.ReplaceAll(types.ExprString(fd.Recv.List[0].Type), "*", "") != "Writer" {
+					continue
+				}
+				// a reflect.Value parameter indexed in a loop
+				var param types.Object
+				for _, fl := range fd.Type.Params.List {
+					for _, nm := range fl.Names {
+						if o := info.Defs[nm]; o != nil && o.Type().String() == "reflect.Value" {
+							param = o
+						}
+					}
+				}
+				if param == nil {
+					continue
+				}
+				indexes, uint8Test := false, false
+				ast.Inspect(fd.Body, func(k ast.Node) bool {
+					switch x := k.(type) {
+					case *ast.CallExpr:
+						if sel, ok := x.Fun.(*ast.SelectorExpr); ok && sel.Sel.Name == "Index" {
+							if id, ok := sel.X.(*ast.Ident); ok && info.Uses[id] == param {
+								indexes = true
+							}
+						}
+					case *ast.SelectorExpr:
+						if x.Sel.Name == "Uint8" {
+							if id, ok := x.X.(*ast.Ident); ok {
+								if pn, ok := info.Uses[id].(*types.PkgName); ok && pn.Imported().Path() == "reflect" {
+									uint8Test = true
+								}
+							}
+						}
+					}
+					return true
+				})
+				if !indexes {
+					continue
+				}
+				n++
+				key := rel + ".Writer." + fd.Name.Name + ":bytes"
+				if uint8Test {
+					rep.Discharge("K-bytes", key, prog.Pos(fd.Pos()), "tests for the byte element kind")
+				} else {
+					rep.Violate(Finding{Rule: "K-bytes", Key: key, Pos: prog.Pos(fd.Pos()), Msg: fmt.Sprintf("%s.Writer.%s writes the elements of a reflected slice one by one without testing for bytes: a []byte field, map value or typed-slice element ignores the BytesAs option here while pretty and alt.Decompose honour it", rel, fd.Name.Name)})
+				}
+			}
+		}
+	}
+	rep.Eval(n)
+	if n < 4 {
+		rep.Errorf("K-bytes examined %d reflective slice writers (floor 4): anchors did not resolve", n)
+	}
+}
